@@ -380,8 +380,21 @@ def sense(prog, run):
     pos, _, _, _ = astq.params_of(fi.node)
     wh = [c for c, nm in astq.calls_resolved(prog, fi, lambda n: n == "numpy.where") if len(c.args) == 3]
     if not wh:
+        # the masking may sit in a private helper applied to every table: its np.where, written in applymask's own names
+        import copy as _copy
+        for hc, r in prog.calls_in(fi):
+            if isinstance(r, FuncInfo) and r.node is not fi.node and r.node.name.startswith("_"):
+                m_, errs = astq.bind_args(r.node, hc, bound=False)
+                if errs:
+                    continue
+                for c, nm in astq.calls_resolved(prog, r, lambda n: n == "numpy.where"):
+                    if len(c.args) == 3:
+                        env_ = {p_: a_ for p_, a_ in m_.items() if isinstance(a_, ast.AST)}
+                        wh.append(ast.copy_location(astq._SubstEnv(env_).visit(_copy.deepcopy(c)), hc))
+    if not wh:
         run.ob("R-sense", fi.qual, "np.where(mask, arr, nan)", None, "masking is not done with np.where(cond, value, nan): form not recognised", file=f)
     loopvars = {n.target.id for n in ast.walk(fi.node) if isinstance(n, ast.For) and isinstance(n.target, ast.Name)}
+    loopvars |= {g.target.id for n in ast.walk(fi.node) if isinstance(n, (ast.ListComp, ast.GeneratorExp)) for g in n.generators if isinstance(g.target, ast.Name)}
     for c in wh:
         cond = astq.at_node(fi, c, c.args[0])
         cn = {x.id for x in ast.walk(cond) if isinstance(x, ast.Name)}
